@@ -1,3 +1,4 @@
+use super::taken_slice::TakenSlice;
 use crate::{
     iter::{
         atomic_iter::{AtomicIter, AtomicIterWithInitialLen},
@@ -60,8 +61,8 @@ impl<const N: usize, T: Send + Sync> ConIterOfArray<N, T> {
 
         // raw pointer to the first element: concurrent callers must not create aliasing `&mut` references to the array
         let ptr = (self.array.get() as *mut T).add(begin_idx);
-        let vec = Vec::from_raw_parts(ptr, len, 0);
-        vec.into_iter()
+        // the iterator owns exactly these `len` elements, which are reserved for the caller
+        TakenSlice::new(ptr, len)
     }
 
     unsafe fn split_off_right(&self, left_len: usize) -> Vec<T> {
